@@ -123,7 +123,7 @@ REQUIRED_PROBES = {
             "read-on-out-of-order-storage", "scan-instance-compared"],
     "C02": ["noop-write"],
     "C04": ["read-flushed-buffered-rows", "read-stopped-early",
-            "suspended-reader-advanced"],
+            "suspended-reader-advanced", "fresh-reader-compared"],
     "C08": ["naive-time", "naive-time-in-fold", "time-in-named-zone",
             "time-with-utc-offset", "time-at-range-end", "time-less-point",
             "reopen-other-tz", "clock-back"],
